@@ -595,8 +595,12 @@ def run(ctx):
             continue
         n_runs += len(r.inputs)
         n_eval += len(r.inputs)
-        if r.irun != r.mrun:
-            k = next(i for i in range(len(r.inputs)) if r.irun[i] != r.mrun[i])
+        # 'B' = the real run exhausted its invocation budget without a cycle (expensive backtracking): not judged
+        nb = r.irun.count("B")
+        if nb:
+            stats["budget_runs_not_judged"] = stats.get("budget_runs_not_judged", 0) + nb
+        if any(a != b and a != "B" for a, b in zip(r.irun, r.mrun)) or len(r.irun) != len(r.mrun):
+            k = next(i for i in range(min(len(r.irun), len(r.mrun))) if r.irun[i] != r.mrun[i] and r.irun[i] != "B") if len(r.irun) == len(r.mrun) else 0
             if ndiff < 40:
                 ctx.diff("parse verdict differs (T/F/X/R=no termination)", "%s input=%s" % (short_cpp(g), hexs(r.inputs[k])), impl=r.irun[k], model=r.mrun[k])
             ndiff += 1
@@ -635,8 +639,9 @@ def run(ctx):
     nviol = viol.pop("#count", 0)
     for key, (_, _, txt, w, g, nloop) in sorted(viol.items()):
         sig = "analyze()==0 but the parser does not terminate [%s]: %s on input '%s'" % (key, txt, w)
-        ctx.violation(sig, "analyze< G >( -1 ) returned 0 problems, yet parse< G >() on '%s' exceeded %d rule entries / depth %d without finishing "
-                           "(%d of the explored inputs loop; %d certified grammars loop in this run)" % (w, 20000, 1500, nloop, nviol),
+        ctx.violation(sig, "analyze< G >( -1 ) returned 0 problems, yet parse< G >() on '%s' runs into a cycle without progress (a rule re-entered at the same "
+                           "input position while an invocation of it there is still open, or more than 1000 starts of one sub-rule at one position by one invocation) "
+                           "(%d of the explored inputs loop; %d certified grammars loop in this run)" % (w, nloop, nviol),
                       {"grammar_cpp": g.cpp(), "gid": g.gid, "input_hex": hexs(w), "alphabet": g.alphabet, "maxlen": maxlen,
                        "how": "bin/check --replay <this file>: compiles the grammar with harness/c11_harness.hpp against the tree, prints analyze<G>(-1) and the verdict on the input"})
     if ctx.tier == "thorough":
